@@ -17,7 +17,7 @@ CONSTANTS Jobs,      \* job identities (one task type)
           Fails,     \* jobs whose process fails
           Depth
 
-VARIABLES dirs,      \* job -> "none" | "done" | "failed" | "running"   (job directory and its markers)
+VARIABLES dirs,      \* job -> "none" | "gen" (generated, never run) | "done" | "failed" | "running"   (job directory and its markers)
           idx, bak,  \* experiment -> set of linked jobs (index / backup index)
           bakE,      \* experiment -> does jobs.bak exist
           last,      \* experiment -> the plan of its last run that ended without exception
@@ -39,6 +39,14 @@ AfterRun(S) == [j \in Jobs |-> IF j \in S /\ dirs[j] # "done" THEN Outcome(j) EL
 Snapshot(d, i, b, e) == [dirs |-> d, idx |-> i, bak |-> b, bakE |-> e]
 
 (* experiment run: enter (links move to the backup), submit S, leave *)
+(* a run in GENERATE_ONLY mode that ends normally: the job directories are written, nothing is run, and neither the
+   index nor its backup is touched (only a NORMAL run moves links or drops the backup) *)
+RunGen(e, S) ==
+  LET d1 == [j \in Jobs |-> IF j \in S /\ dirs[j] = "none" THEN "gen" ELSE dirs[j]]
+  IN /\ dirs' = d1
+     /\ UNCHANGED <<idx, bak, bakE, last, begun>>
+     /\ hist' = Append(hist, [a |-> "run", xp |-> e, jobs |-> S, how |-> "gen", st |-> Snapshot(d1, idx, bak, bakE)])
+
 Run(e, S, how) ==
   LET b1 == bak[e] \cup idx[e]                       \* __enter__: move / drop duplicates
       d1 == AfterRun(S)
@@ -86,6 +94,7 @@ MarkRunning(j) ==
 Plans == {S \in SUBSET Jobs : S # {}}
 Next ==
   \/ \E e \in Xps, S \in Plans, how \in {"ok", "exc", "kill"} : Run(e, S, how)
+  \/ \E e \in Xps, S \in Plans : RunGen(e, S)
   \/ \E sel \in SUBSET Jobs, e \in Xps \cup {""}, perform \in BOOLEAN : JobsClean(sel, e, perform)
   \/ \E clean, ignoreOld \in BOOLEAN : Orphans(clean, ignoreOld)
   \/ \E j \in Jobs : MarkRunning(j)
